@@ -75,7 +75,7 @@ def random_tree(rnd, depth=0):
     for nm in names:
         children.append({"n": cps(nm), "k": "f", "t": 0, "c": []})
     if depth < 2 and rnd.random() < 0.6:
-        for d in rnd.sample(["sub", "A", "zz.json", "m.guard"], rnd.randint(1, 2)):
+        for d in rnd.sample(["sub", "A", "zz.json", "m.guard", "release-1.2", "policy.v2", ".hidden"], rnd.randint(1, 2)):
             sub = random_tree(rnd, depth + 1)
             sub["n"] = cps(d)
             children.append(sub)
